@@ -264,3 +264,117 @@ def _is_nested_propagation(f, assign):
                 c = canon(children(x)[0])
                 return '>= 0' in c or '< 0' in c
     return False
+
+
+def rule_scan_abandon(prog, rep, fname='_parsestr', rid='B5'):
+    """INI variable expansion: the reference scan over a value is abandoned (a `break` out of the scanning loop) only where
+    the text has ended (a test of a scan cursor against NUL taken on its true edge) or a restart was requested (the restart
+    flag set): an undefined reference is stepped over and the scan goes on, so references to its right are still expanded."""
+    from .own import propagate, node_events
+    from .frontend import AnalysisBroken
+    rep.rule(rid, 'the ${...} scan over a value is abandoned only at the end of the text or with a restart requested: an '
+                  'unresolved reference is stepped over, references to its right are still expanded')
+    f = prog.need_func(fname, 'src/extensions/qconfig.c')
+    # the scan loop: a for/while whose condition reads the byte under a cursor and whose body contains the expansion call
+    loops = []
+    for x in walk(f.body):
+        if x.get('kind') in ('ForStmt', 'WhileStmt'):
+            inner = x.get('inner') or []
+            cond = inner[2] if x['kind'] == 'ForStmt' and len(inner) >= 5 else (children(x)[0] if children(x) else None)
+            if not cond:
+                continue
+            reads = any(y.get('kind') == 'UnaryOperator' and y.get('opcode') == '*' for y in walk(cond))
+            has_replace = any(y.get('kind') == 'CallExpr' and prog.callee_name(y) == 'qstrreplace' for y in walk(x))
+            if reads and has_replace:
+                loops.append(x)
+    if not loops:
+        return      # another shape of the expansion: nothing to check (not decided)
+    loop = loops[0]
+    # restart flag: the local tested by the enclosing do-while
+    flags = set()
+    for x in walk(f.body):
+        if x.get('kind') == 'DoStmt':
+            for y in walk(children(x)[-1]):
+                if y.get('kind') == 'DeclRefExpr':
+                    flags.add((y.get('referencedDecl') or {}).get('name'))
+    # `break` is an edge in the CFG: the exits of the scan loop are the edges into the node that follows the loop (the
+    # false successor of the loop condition); the edge from the condition itself is the natural end of the scan
+    inner = loop.get('inner') or []
+    cond_ast = inner[2] if loop['kind'] == 'ForStmt' else children(loop)[0]
+    cond_ids = {id(y) for y in walk(cond_ast)}
+    heads = [n for n in f.cfg.nodes if n.kind == 'cond' and isinstance(n.ast, dict) and id(n.ast) in cond_ids]
+    if not heads:
+        raise AnalysisBroken('%s: condition node of the scan loop not found' % fname)
+    exits = [sx for h in heads for (sx, lab) in h.succs if lab == 'F']
+    target = exits[-1]
+    while target.kind == 'join' and len(target.succs) == 1 and len(target.preds) == 1:
+        target = target.succs[0][0]
+    head_ids = {h.id for h in heads}
+
+    def transfer(n, st):
+        if not isinstance(n.ast, dict) or n.kind == 'macro':
+            return st
+        s = set(st)
+        for ev in node_events(n):
+            if ev[0] == 'assign':
+                l = strip(ev[1])
+                if l.get('kind') == 'DeclRefExpr' and (l.get('referencedDecl') or {}).get('name') in flags:
+                    v = int_value(ev[2])
+                    if v:
+                        s.add('restart')
+                    else:
+                        s.discard('restart')
+        # a new iteration of the scan loop forgets "end of text"
+        return frozenset(s)
+
+    def branch(n, st, lab):
+        if not isinstance(n.ast, dict):
+            return st
+        c = strip_parens(n.ast)
+        s = set(st)
+        eos = None
+        if c.get('kind') == 'BinaryOperator' and c.get('opcode') in ('==', '!='):
+            a, b = children(c)
+            for x, y in ((a, b), (b, a)):
+                sx = strip(x)
+                if sx.get('kind') == 'UnaryOperator' and sx.get('opcode') == '*' and int_value(y) == 0:
+                    eos = (c.get('opcode') == '==') == (lab == 'T')
+        elif strip(c).get('kind') == 'UnaryOperator' and strip(c).get('opcode') == '*':
+            eos = lab == 'F'
+        elif strip(c).get('kind') == 'UnaryOperator' and strip(c).get('opcode') == '!':
+            i = strip(children(strip(c))[0])
+            if i.get('kind') == 'UnaryOperator' and i.get('opcode') == '*':
+                eos = lab == 'T'
+        if eos is True:
+            s.add('eos')
+        elif eos is False:
+            s.discard('eos')
+        return frozenset(s)
+
+    # edge-sensitive propagation (states are subsets of {eos, restart})
+    edge_states = {}
+    seen = set()
+    work = [(f.cfg.entry, frozenset())]
+    while work:
+        n, st = work.pop()
+        if (n.id, st) in seen:
+            continue
+        seen.add((n.id, st))
+        out = transfer(n, st)
+        for (sx, lab) in n.succs:
+            o2 = branch(n, out, lab) if lab in ('T', 'F') else out
+            edge_states.setdefault((n.id, sx.id), set()).add(o2)
+            work.append((sx, o2))
+    breaks = [(p, lab) for (p, lab) in target.preds if p.id not in head_ids]
+    if not breaks:
+        raise AnalysisBroken('%s: the scan loop has no early exit edge (expected at least the restart exit)' % fname)
+    for (p, lab) in sorted(breaks, key=lambda e: e[0].line or 0):
+        rep.instance(rid)
+        sts = edge_states.get((p.id, target.id), set())
+        bad = [st for st in sts if 'eos' not in st and 'restart' not in st]
+        ok = not bad
+        rep.oblige(rid, ok, {'function': fname, 'exit_after_line': p.line, 'states': sorted(sorted(x) for x in sts)})
+        if not ok:
+            rep.violation(rid, f, p.line, 'scan-break',
+                          'the reference scan is abandoned after line %s without the end of the text having been seen and without a '
+                          'restart being requested: every ${...} to the right of this point stays unexpanded' % p.line)
